@@ -107,9 +107,9 @@ Proof. exact cut_inside_field_read_packet. Qed.
 Print Assumptions C09a_read_packet.
 
 (* the field map is the encoder's: its segments concatenate to the body *)
-Theorem C09a_segs_cover : forall b c, seg_cut (body_segs b) c -> field_cut (fields b) c.
+Theorem C09a_segs_cover : forall t b c, seg_cut (body_segs b) c -> field_cut (fields t b) c.
 Proof. exact segs_refine. Qed.
-Theorem C09a_fields_body : forall b, concat (map fst (fields b)) = e_body b.
+Theorem C09a_fields_body : forall t b, concat (map f_seg (fields t b)) = e_body b.
 Proof. exact fields_body. Qed.
 
 (* the hypotheses are inhabited: a CONNACK with a two-byte property cut
@@ -141,6 +141,76 @@ Proof.
     repeat (apply Forall_cons; [split; apply N.ltb_lt; vm_compute; reflexivity|]). apply Forall_nil.
   - vm_compute. right. split; [lia|]. right. split; [lia|]. right. split; [lia|]. right. split; [lia|].
     left. split; [repeat split; discriminate|lia].
+Qed.
+
+(* (b)-(d) over whole frames.  Take any valid frame and any property
+   section in it (sect where_ okps ps in its list of fields: CONNECT and will
+   properties, CONNACK, PUBLISH, the acknowledgements, SUBSCRIBE, SUBACK,
+   UNSUBSCRIBE, UNSUBACK, DISCONNECT, AUTH).  Keep the fields before it and
+   replace the section and everything after it by `bad ++ rest` where rest
+   is arbitrary and bad is
+     - four continuation bytes (the property length continues beyond four
+       bytes, (b)), or
+     - a property length L, any valid properties ps1 shorter than L, and then
+       an identifier MQTT does not define (d), a boolean property of this
+       place with a value other than 0 and 1 (c), or a subscription identifier
+       whose variable byte integer continues beyond four bytes (b).
+   UnmarshalBinary rejects the body, and ReadPacket - under any delivery,
+   whatever follows - returns that error and no packet. *)
+Theorem C09bcd_whole_frames : forall f pre where_ okps ps post bad rest, frame_ok f ->
+  fields (af_type f) (af_body f) = pre ++ sect where_ okps ps :: post -> bad_section where_ okps bad ->
+  exists e, decode_frame (n2b (af_type f * 16 + af_flags f)) (concat (map f_seg pre) ++ bad ++ rest) = Some (None, Some e).
+Proof. exact poisoned_frame_rejected. Qed.
+Print Assumptions C09bcd_whole_frames.
+
+Theorem C09bcd_read_packet : forall f pre where_ okps ps post bad rest s after,
+  frame_ok f ->
+  fields (af_type f) (af_body f) = pre ++ sect where_ okps ps :: post -> bad_section where_ okps bad ->
+  let b0 := n2b (af_type f * 16 + af_flags f) in
+  let body := concat (map f_seg pre) ++ bad ++ rest in
+  len body < 268435456 ->
+  sbytes s = b0 :: enc_vb (len body) ++ body ++ after ->
+  avail (len (b0 :: enc_vb (len body) ++ body)) s = true ->
+  exists e tr, read_packet s =
+    RP {| r_pkt := None; r_err := Some e; r_rest := sdrop (len (b0 :: enc_vb (len body) ++ body)) s;
+          r_trace := tr; r_got := b0 :: enc_vb (len body) ++ body |}.
+Proof. exact poisoned_frame_read_packet. Qed.
+Print Assumptions C09bcd_read_packet.
+
+(* what "poisoned" means, spelled out (definitions of Proofs/CutP.v) *)
+Theorem C09bcd_bad_section : forall where_ okps bad, bad_section where_ okps bad <->
+  ((exists a b c e, bad = [a; b; c; e] /\ cont a = true /\ cont b = true /\ cont c = true /\ cont e = true)
+   \/ (exists L ps1 t, bad = e_var L ++ e_props_raw ps1 ++ t /\ L < 268435456 /\ len (e_props_raw ps1) < L
+                       /\ okps ps1 /\
+        ((exists u r, t = n2b u :: r /\ u < 256 /\ prop_type u = None)
+         \/ (exists id b r, t = n2b id :: b :: r /\ is_bool_prop id = true /\ allowed where_ id = true /\ 2 <= b2n b)
+         \/ (exists a b c e r, t = n2b 11 :: a :: b :: c :: e :: r
+                               /\ cont a = true /\ cont b = true /\ cont c = true /\ cont e = true)))).
+Proof. intros. reflexivity. Qed.
+
+(* inhabited: CONNACK 20 .. 00 00 | 03 25 02 .. (retain available = 2) and
+   | 02 30 .. (identifier 0x30) after the property receive maximum *)
+Example C09bcd_inhabited :
+  let f1 := {| af_type := 2; af_flags := 0;
+               af_body := BConnack 0 0 [ {| ap_id := 33; ap_val := VTwo 10 |} ] |} in
+  frame_ok f1
+  /\ fields 2 (af_body f1) = [fld (e_u8 0); fld (e_u8 0)] ++ sect 2 (sprops_ok 2) [ {| ap_id := 33; ap_val := VTwo 10 |} ] :: []
+  /\ bad_section 2 (sprops_ok 2) (e_var 5 ++ e_props_raw [ {| ap_id := 33; ap_val := VTwo 10 |} ] ++ [x25; x02])
+  /\ bad_section 2 (sprops_ok 2) (e_var 1 ++ e_props_raw [] ++ [x30]).
+Proof.
+  cbv zeta.
+  assert (Hps : sprops_ok 2 [ {| ap_id := 33; ap_val := VTwo 10 |} ]).
+  { split; [repeat (apply Forall_cons; [sprop|]); apply Forall_nil|nodup]. }
+  split; [|split; [reflexivity|split]].
+  - unfold frame_ok; cbn [af_type af_flags af_body].
+    split; [reflexivity|]. split; [reflexivity|]. split; [apply N.leb_le; reflexivity|].
+    split; [apply N.ltb_lt; reflexivity|]. split; [exact Hps|apply N.ltb_lt; vm_compute; reflexivity].
+  - right. exists 5, [ {| ap_id := 33; ap_val := VTwo 10 |} ], [x25; x02].
+    split; [reflexivity|]. split; [apply N.ltb_lt; reflexivity|]. split; [apply N.ltb_lt; vm_compute; reflexivity|].
+    split; [exact Hps|]. right. left. exists 37, x02, []. repeat split; try reflexivity; try (apply N.leb_le; reflexivity).
+  - right. exists 1, [], [x30].
+    split; [reflexivity|]. split; [apply N.ltb_lt; reflexivity|]. split; [apply N.ltb_lt; vm_compute; reflexivity|].
+    split; [split; [apply Forall_nil|apply NoDup_nil]|]. left. exists 48, []. repeat split; try reflexivity.
 Qed.
 
 Example C09_witnesses :
